@@ -32,6 +32,7 @@ RULE = ("expressions with 1..3 (possibly nested) einsum/matmul/dot nodes whose "
         "einsums' (RuntimeError) is the documented refusal.  non-trivial = the "
         "rewritten graph differs structurally from the original; distinct by "
         "(program, policy)")
+RULE += '  Round-4 addition: 64 enumerated mixed-dtype products A @ (x +- y) with A, x of a narrow dtype whose products leave it (int8/uint8/int16 wrap, float32 rounds) and y wider: distributing would contract in the narrow dtype.'
 ASSUMPTIONS = [
     "dtypes int32/int64/float64/complex128 only, so that the inexact-case "
     "tolerance stays 9 orders of magnitude below the effect of a wrong rewrite",
